@@ -494,8 +494,11 @@ __goon:
 	for {
 		switch l.next() {
 		case utf8.RuneError:
-			l.errorf("invalid UTF-8 rune")
-			return lexRawString
+			// width 1 is an invalid encoding; a well-formed U+FFFD is 3 bytes wide
+			if l.width == 1 {
+				l.errorf("invalid UTF-8 rune")
+				return lexRawString
+			}
 		case eof:
 			l.errorf("unterminated raw string")
 			return lexRawString
